@@ -152,7 +152,7 @@ macro_rules! contract_bytes {
                         if i < $l && r[i] != v[i] { changed += 1; }
                     });
                     assert!(changed <= 1, "character mutator changed more than one position");
-                    kani::cover!(changed == 1);
+                    kani::cover!($l == 0 || changed == 1);
                     std::mem::forget(r);
                 }
             });
@@ -257,8 +257,8 @@ macro_rules! post_h {
                     let nc = value_class(l.op);
                     assert!(nc != 0, "replacement is not a value-pushing opcode");
                     assert!(nc != value_class(orig.unwrap()), "replacement pushes the same kind as the original");
-                    kani::cover!(true);
                 }
+                kani::cover!($dl == 0 || !$unsafe_mode || fired);
                 std::mem::forget(out);
                 std::mem::forget(snap);
             });
